@@ -20,6 +20,14 @@ pub struct Event {
 
 thread_local! {
     static LOG: RefCell<Option<Vec<Event>>> = const { RefCell::new(None) };
+    static BUDGET: std::cell::Cell<Option<u64>> = const { std::cell::Cell::new(None) };
+}
+
+/// Arm (or disarm) a per-thread event budget: once more than `n` further events have been
+/// emitted, [`emit`] panics with the message "verif-hooks: event budget exceeded". A monitor uses
+/// this as a logical-step watchdog around calls that are supposed to make bounded progress.
+pub fn set_budget(n: Option<u64>) {
+    BUDGET.with(|b| b.set(n));
 }
 
 /// Start (or restart) recording on this thread.
@@ -34,6 +42,15 @@ pub fn take() -> Vec<Event> {
 
 /// Append an event if recording is active on this thread.
 pub fn emit(tag: &'static str, a: u32, b: u32, c: u32) {
+    BUDGET.with(|bu| {
+        if let Some(left) = bu.get() {
+            if left == 0 {
+                bu.set(None);
+                panic!("verif-hooks: event budget exceeded");
+            }
+            bu.set(Some(left - 1));
+        }
+    });
     LOG.with(|l| {
         if let Some(log) = l.borrow_mut().as_mut() {
             log.push(Event { tag, a, b, c });
